@@ -439,7 +439,7 @@ struct RefsWorld : World {
 				const int steps = 8 + (int) (op.c % 3) * 8;
 				for (int k = 0; k < steps; ++k) {
 					x = x * 1664525u + 1013904223u;
-					unsigned act = (x >> 12) % 15; int i = (x >> 8) & 1, j = (x >> 9) & 1, w = (x >> 10) & 1;
+					unsigned act = (x >> 12) % 16; int i = (x >> 8) & 1, j = (x >> 9) & 1, w = (x >> 10) & 1;
 					uint64_t fn = ((x >> 4) & 3) == 0 ? 1 + ((x >> 6) % 3) : 0; bool fired = false;
 					char nm[24]; snprintf(nm, sizeof nm, (x & 0x20000) ? "a-longer-name-for-item-number-%d" : "n%d", k);
 					const char *name = (x & 0x10000) ? nm : 0;
@@ -487,6 +487,15 @@ struct RefsWorld : World {
 					case 12: { what = "clone";
 						if (x & 0x40000) { if (clone_g) { Sut su; clone_g->unref(); clone_g = 0; } else if (is_alive(P(GR[j]->id()))) { Sut su(fn); clone_g = GR[j]->clone(); fired = g.fired; } }
 						else { if (clone_l) { Sut su; clone_l->unref(); clone_l = 0; } else if (is_alive(P(LY[i]->id()))) { Sut su(fn); clone_l = LY[i]->clone(); fired = g.fired; } }
+						break; }
+					case 15: { what = "cycle use"; if (!is_alive(P(CY[w]->id()))) break;
+						// the plot data proper: values into a dimension of a stage, next stage, stage limit, a copy (which shares the stage array)
+						cycle *c = CY[w]; unsigned v = (x >> 20) % 4;
+						if (v == 0) { double vals[4] = {1, 2, 3, 4}; struct iovec vec; vec.iov_base = vals; vec.iov_len = sizeof(double) * (1 + (x >> 24) % 4); value val; val.set(MPT_type_toVector('d'), &vec);
+							valdest vd; vd.cycle = (x >> 26) % 3; vd.offset = (x >> 28) % 3; Sut su(fn); int rc = c->modify((x >> 22) % 3, val, &vd); fired = g.fired; if (rc >= 0) st.hit("probe:cycle_filled"); }
+						else if (v == 1) { Sut su(fn); c->advance(); fired = g.fired; }
+						else if (v == 2) { Sut su(fn); c->limit_stages((x >> 24) % 4); fired = g.fired; }
+						else { cycle *cl; { Sut su(fn); cl = c->clone(); fired = g.fired; } if (cl) { Sut su; cl->unref(); } }
 						break; }
 					case 13: case 14: { what = "harness take/drop";
 						PObj &o = po[(x >> 20) % po.size()];
